@@ -90,10 +90,11 @@ def main(argv=None):
         n_dis += fn["discharged"]
         solver_time += r.get("solve_s", 0) or 0
         assumptions.update(r.get("assumptions", []))
-        if r["status"] == "timeout":
-            degraded.append({"function": key, "reason": "verifier hard timeout: undecided, bounded stand-in only"})
+        if r["status"] in ("timeout", "unsupported"):
+            # undecided, never a violation by itself: a construct outside the engine's subset / a hard timeout falls back to the bounded stand-in
+            degraded.append({"function": key, "reason": f"{r['status']}: {r.get('detail', '')[:200]} - bounded stand-in only"})
             continue
-        if r["status"] in ("unsupported", "anchor-missing"):
+        if r["status"] in ("anchor-missing",):
             was_ok = any(v == "proved" for v in base.get("clauses", {}).values())
             entry = {"function": key, "reason": f"{r['status']}: {r.get('detail', '')[:200]}", "was_proved": was_ok, "code_changed": base.get("ast_hash") not in (None, r.get("ast_hash"))}
             (suspicious if was_ok else degraded).append(entry)
